@@ -225,6 +225,14 @@ PAIRS['BAD3'] = ("""<schema><sectiontype name="ta"><key name="k-a"/><key name="+
  <sectiontype name="tb"><key name="k-a"/><key name="+" attribute="any"/><multikey name="km" attribute="k_a"/></sectiontype>
  <section type="tb" name="*" attribute="sb"/></schema>""", {})
 
+PAIRS['BAD4'] = ("""<schema><sectiontype name="ta"><key name="ka"/><multikey name="kl"/></sectiontype>
+ <sectiontype name="tb" extends="ta"><key name="kb"/></sectiontype>
+ <sectiontype name="tc" extends="tb"><key name="KA" attribute="other"/></sectiontype>
+ <section type="tc" name="*" attribute="sc"/></schema>""", """<schema><sectiontype name="ta"><key name="ka"/><multikey name="kl"/></sectiontype>
+ <sectiontype name="tb"><key name="ka"/><multikey name="kl"/><key name="kb"/></sectiontype>
+ <sectiontype name="tc"><key name="ka"/><multikey name="kl"/><key name="kb"/><key name="KA" attribute="other"/></sectiontype>
+ <section type="tc" name="*" attribute="sc"/></schema>""", {})
+
 PAIRS['CMP'] = ("""<schema>
  <import package="vfpk_a"/>
  <import package="vfpk_b"/>
